@@ -9,7 +9,8 @@ LEVEL = "model_checking"
 NEEDS_SCHED = True
 RULE = ("the main thread enters Class.buffer_backend(capacity); all thread schedules up to a preemption bound of "
         "2-thread programs of buffered mutators on {distinct files, two objects on one file, one object}, also with an "
-        "unflushed write already sitting in the buffer when the threads start; the main "
+        "unflushed write already sitting in the buffer when the threads start, and with a thread that shrinks the capacity "
+        "(set_buffer_capacity) next to a writer; the main "
         "thread exits the context and observes; oracle = observation (results, exceptions incl. the context exit, "
         "final files, reported buffer size) equals that of some serial order on the implementation; non-trivial = "
         "distinct observations")
@@ -105,6 +106,19 @@ def plan(tier, seed):
                     if capname != "mid":
                         for nm in itertools.product(CORE3[k][:2], repeat=4):
                             pm.append(build(c, topo, list(nm), capname, cap, ops_per_thread=2))
+    # a thread that changes the capacity (forcing a flush from outside any operation) next to a writer
+    for c in ("BufferedJSONDict", "MemoryBufferedJSONDict") + (("BufferedJSONList", "MemoryBufferedJSONList") if tier != "quick" else ()):
+        k = env.kind_of(c)
+        w = "setitem_diff" if k == "dict" else "append"
+        tiny = 0 if env.is_memory_buffered(c) else 1
+        for topo in ("distinct-files", "two-objects-one-file"):
+            for wname in (w, "reset"):
+                pr = build(c, topo, [w, wname], "default", None, predirty=True)
+                # thread 0 does not write: it shrinks the capacity instead
+                pr["threads"][0] = [("setcap", tiny)]
+                pr["label"] = pr["label"].replace("/%s||" % w, "/setcap||", 1)
+                pr["pair"] = "||".join(sorted(["setcap", wname]))
+                p1.append(pr)
     tasks = []
 
     def chunk(progs, n, **kw):
